@@ -576,6 +576,10 @@ SNAP* SessionKeys::tkip_decrypt_unicast(const Dot11Data& dot11, RawPDU& raw) con
 }
 
 SNAP* SessionKeys::decrypt_unicast(const Dot11Data& dot11, RawPDU& raw) const {
+    // A default constructed object holds no keys: there's nothing to decrypt with
+    if (ptk_.size() != PTK_SIZE) {
+        return 0;
+    }
     return is_ccmp_ ? 
            ccmp_decrypt_unicast(dot11, raw) :
            tkip_decrypt_unicast(dot11, raw);
